@@ -380,9 +380,11 @@ Definition create (opi : nat) (pod : name) (r : res) (plan : option (list (name 
           ign (with_node_pod_locked (fst g) (fun _ => doc (PRollbackAlloc (fst g) (repeat r (length (snd g))))))) ;;;
         rok)) ;;
   let '(s, _, ms) := fst res in
+  (* deferred, LIFO: delete the processing markers, commit their WAL entries, commit the
+     allocation entry, close the channel *)
+  for_all (cs_plan s) (fun g => ign (doc (SDeleteProcessing (fst g) opi))) ;;;
   commit_processing opi (cs_ptokens s) ;;;
   (match cs_rtoken s with Some t => ign (doc (WCommit t (EvAlloc []))) | None => skip end) ;;;
-  for_all (cs_plan s) (fun g => ign (doc (SDeleteProcessing (fst g) opi))) ;;;
   send MClose ;;;
   Ret ms.
 
